@@ -69,7 +69,7 @@ m = {
  "version": 1,
  "setup_cmd": "./check setup",
  "hooks": {"guard": "verif", "enable": "go build -tags verif (pkg/verifhook.Gate: scheduler gates after-lock / before-status / before-exit, used by C12; no-op without the tag)",
-           "baseline_off_cmd": "/verif/baseline_off.sh", "source_commits": ["ae4ef1a"], "add_only": True},
+           "baseline_off_cmd": "/verif/baseline_off.sh", "source_commits": ["ae4ef1a", "ff47abf"], "add_only": True},
  "engines": [{"name": "check", "path": "/verif/check", "serves_properties": sorted(CHECKS),
               "kind_free_text": "Python driver: TLC on specs/ + Go/Python harness against binaries built from /repo's working tree"}],
  "checks": checks, "not_applicable": na,
